@@ -3,7 +3,7 @@ from ..common import Check
 from .. import gficheck, gfirecord
 
 QUICK = ["f2", "fn3", "fb", "fv", "fvf", "fr", "fs", "fc", "fa", "fd", "fvc", "frk", "fvi", "fcv", "fcg", "fch", "fs2", "fe", "fve", "fvcb", "fsk"]
-THOROUGH = QUICK + ["fvs", "fsc", "f3d", "cTF", "vf", "sc"]
+THOROUGH = QUICK + ["fsc", "f3d", "cTF", "vf", "sc"]
 INV = ["Coherent", "SimulateOK", "SimTotalProb"]
 
 
